@@ -213,7 +213,12 @@ def data_framing(ctx):
             fails.append((case, obs, 'fails malformed-payload-queued'))
         if m['tail'] and got[:1] and m['verdict'] == 'refused':
             fails.append((case, obs, 'fails terminator-is-tail-of-malformed-line (the line "." that ended the DATA phase directly follows a stray CR/LF or the discard of an over-long line)'))
-        by_stream.setdefault(st, []).append((case, obs))
+        # what must not depend on the segmentation: the message and the replies to *lines*.  The number of
+        # 500 replies to a malformed stretch (one per reader error) legitimately depends on where the
+        # reads fall (`reader_refines_goodLines`: the lines do not, the error results may), so the 500s
+        # are left out of this comparison (each chunking on its own is compared with the model reply by
+        # reply above, 500s included).
+        by_stream.setdefault(st, []).append((case, '%s queued=%d' % ('+'.join(c for c in got if c != '500'), len(queued))))
     for st, lst in by_stream.items():
         if len({o for _, o in lst}) > 1:
             fails.append((lst[0][0], ' | '.join(sorted({o for _, o in lst}))[:300], 'fails chunk-independence of the DATA phase'))
